@@ -2066,13 +2066,18 @@ func (c *compiler) VisitFuncCall(e *ast.FuncCall) ast.VisitResult {
 			}
 		} else {
 			eval, valTyp, isTemp := c.evaluate(e.Args[param.Name.Literal]) // compile each argument for the function
+			// a callee that never changes this parameter does not free it and may be given the value itself
+			calleeBorrows := !ast.IsExternFunc(fun.funcDecl) && c.optimizationLevel >= 2 && meta.IsConst[param.Name.Literal]
 			if valTyp.IsPrimitive() ||
-				(!ast.IsExternFunc(fun.funcDecl) && c.optimizationLevel >= 2 && meta.IsConst[param.Name.Literal]) {
+				(calleeBorrows && (isTemp || c.isUnreachableForCallee(e, fun.funcDecl, param.Name.Literal))) {
 				val = eval
 			} else { // function parameters need to be copied by the caller
 				dest := c.NewAlloca(valTyp.IrType())
 				c.claimOrCopy(dest, eval, valTyp, isTemp)
-				val = dest // do not add it to the temporaries, as the callee will free it
+				val = dest         // do not add it to the temporaries, as the callee will free it
+				if calleeBorrows { // ...unless it only borrows the parameter
+					c.scp.addTemporary(dest, valTyp)
+				}
 			}
 		}
 
@@ -2123,6 +2128,49 @@ func (c *compiler) VisitFuncCall(e *ast.FuncCall) ast.VisitResult {
 		}
 	}
 	return ast.VisitRecurse
+}
+
+// returns the variable an assignable is (a part of)
+func assignableRoot(ass ast.Assigneable) *ast.VarDecl {
+	switch ass := ass.(type) {
+	case *ast.Ident:
+		decl, _ := ass.Declaration.(*ast.VarDecl)
+		return decl
+	case *ast.Indexing:
+		return assignableRoot(ass.Lhs)
+	case *ast.FieldAccess:
+		return assignableRoot(ass.Rhs)
+	case *ast.CastAssigneable:
+		return assignableRoot(ass.Lhs)
+	}
+	return nil
+}
+
+// reports wether the argument for the by-value parameter paramName is a variable the callee cannot reach in any other way,
+// so that passing the variable itself instead of a copy cannot be observed:
+// a local variable that is neither a reference itself nor passed by reference in the same call
+func (c *compiler) isUnreachableForCallee(e *ast.FuncCall, decl *ast.FuncDecl, paramName string) bool {
+	arg := e.Args[paramName]
+	for grouping, ok := arg.(*ast.Grouping); ok; grouping, ok = arg.(*ast.Grouping) {
+		arg = grouping.Expr
+	}
+	ident, ok := arg.(*ast.Ident)
+	if !ok {
+		return false
+	}
+	argDecl, ok := ident.Declaration.(*ast.VarDecl)
+	if !ok || argDecl.IsGlobal || c.scp.lookupVar(argDecl).isRef {
+		return false
+	}
+	for _, param := range decl.Parameters {
+		if !param.Type.IsReference {
+			continue
+		}
+		if ass, ok := e.Args[param.Name.Literal].(ast.Assigneable); !ok || assignableRoot(ass) == argDecl {
+			return false
+		}
+	}
+	return true
 }
 
 func (c *compiler) evaluateStructLiteral(structType *ddptypes.StructType, args map[string]ast.Expression) (value.Value, ddpIrType) {
